@@ -219,7 +219,7 @@ def attribute_docs(src, scope):
     return docs
 
 
-def check_program(src, scope):
+def check_program(src, scope, redefinition=False):
     sample(program=src, scope=scope)
     ns = {"__name__": "m"}
     exec(compile(src, "<m>", "exec"), ns)
@@ -277,7 +277,7 @@ def check_program(src, scope):
                 note(why="nested class namespace differs", name=k, python=sorted(inner_py), pydoctor=sorted(inner_pd), src=src)
                 return False
     # nothing appears twice: contents is a mapping; superseded duplicates would be registered as 'name 0'
-    if any(" " in k for k in s.allobjects):
+    if not redefinition and any(" " in k for k in s.allobjects):
         note(why="a definition is documented twice", keys=[k for k in s.allobjects if " " in k], src=src)
         return False
     return True
@@ -321,4 +321,46 @@ def h_definitions(k2: int, w1: int, doc: int) -> bool:
         if src is None:
             return True
         ok = check_program(src, ["module", "class"][sc])
+    return done(ok)
+
+
+# ------------------------------------------------------------------ the same name defined twice in one namespace (seed C03-6)
+RKEYS = ["def", "async", "classmethod", "staticmethod", "property", "class"]
+RWRAP = ["plain", "if", "try"]
+
+
+def build_redefinition(scope, k1, k2, w1, doc1, doc2):
+    if scope == "module" and (k1 in CLASS_ONLY or k2 in CLASS_ONLY):
+        return None
+    s1 = STMTS[k1]("n1", doc1)
+    s2 = STMTS[k2]("n1", doc2)
+    if scope == "module":
+        s1 = s1.replace("(self)", "()").replace("(cls)", "()")
+        s2 = s2.replace("(self)", "()").replace("(cls)", "()")
+        return WRAP[w1](s1) + s2
+    return "class Host:\n" + ind(WRAP[w1](s1) + s2)
+
+
+@harness(
+    parts=lambda: [[sc, i] for sc in range(2) for i in range(len(RKEYS))], timeout=(240, 900), cls="E", tracing="concrete-after-choice", twin="first",
+    code=["pydoctor.astbuilder.ModuleVistor._handleFunctionDef/_handlePropertyDef/visit_ClassDef", "pydoctor.model.System.handleDuplicate", "pydoctor.astutils.get_docstring_node"],
+    bounds={"quick": "one name bound twice by def/class statements in one namespace: 6 kinds (def, async def, classmethod, staticmethod, property, class) for each of the two definitions x 3 wrappers of the first (plain, if, try) x docstring of the first in {none, one line, multi-line} x docstring of the second in {none, one line} x module / class scope; the object documented under the name must have the kind, docstring and async flag of the LAST definition, as in CPython",
+            "thorough": "same"},
+    outside="redefinition by assignment, redefinition under a false condition, overloads",
+)
+def h_redefinition(k2: int, w1: int, doc1: int, doc2: int) -> bool:
+    """
+    pre: 0 <= k2 <= 5 and 0 <= w1 <= 2 and 0 <= doc1 <= 2 and 0 <= doc2 <= 1
+    post: _
+    """
+    sc, k1 = PART if PART is not None else [1, 0]
+    k2 = pick(k2, 0, 5)
+    w1 = pick(w1, 0, 2)
+    doc1 = pick(doc1, 0, 2)
+    doc2 = pick(doc2, 0, 1)
+    with NoTracing():
+        src = build_redefinition(["module", "class"][sc], RKEYS[k1], RKEYS[k2], RWRAP[w1], DOCKEYS[doc1], DOCKEYS[doc2])
+        if src is None:
+            return True
+        ok = check_program(src, ["module", "class"][sc], redefinition=True)
     return done(ok)
